@@ -168,6 +168,10 @@ for _name in ("normal", "lognormal"):
                               module_env=dict(_env, _nanmean_weighted=FuncV(_mean_call, "_nanmean_weighted")),
                               label=f"hvsrpy.statistics._nanstd_weighted[weighted,cheng,{_name}]", clauses=["Cheng et al. weighted standard deviation"]))
 
+# the statistic accessors of HvsrAzimuthal: which per-azimuth selections, in which order, with which weights, reach which estimator
+import contracts.acc_azimuthal as _ACCA
+TASKS += _ACCA.TASKS
+
 META = dict(
     level="other",
     explanation="proved also: mean_curve_by_azimuth / mean_curve_peak_by_azimuth route azimuth a to row / entry a; "
